@@ -33,6 +33,9 @@ type SpecEnv struct {
 	depth   int
 	errs    *[]string
 	ambiguous map[string]bool
+	// side facts: instances of declared field invariants for the fields a
+	// clause reads (assumed, exactly as at loads in the code)
+	side *[]string
 }
 
 func (env *SpecEnv) errorf(format string, args ...any) Value {
@@ -90,6 +93,33 @@ func (env *SpecEnv) resolveType(text string) types.Type {
 				}
 			}
 		}
+	case strings.HasPrefix(text, "func("):
+		// func(A, B) R   (at most one unnamed result)
+		depth, end := 0, -1
+		for i := 4; i < len(text); i++ {
+			if text[i] == '(' {
+				depth++
+			} else if text[i] == ')' {
+				depth--
+				if depth == 0 {
+					end = i
+					break
+				}
+			}
+		}
+		if end < 0 {
+			env.errorf("bad function type %s", text)
+		}
+		var params, results []*types.Var
+		for _, p := range splitTop(text[5:end], ',') {
+			if p = strings.TrimSpace(p); p != "" {
+				params = append(params, types.NewVar(0, nil, "", env.resolveType(p)))
+			}
+		}
+		if r := strings.TrimSpace(text[end+1:]); r != "" {
+			results = append(results, types.NewVar(0, nil, "", env.resolveType(r)))
+		}
+		return types.NewSignatureType(nil, nil, nil, types.NewTuple(params...), types.NewTuple(results...), false)
 	case text == "struct{}":
 		return types.NewStruct(nil, nil)
 	case text == "any":
@@ -360,6 +390,12 @@ func (env *SpecEnv) fieldOf(base Value, idx int) Value {
 		t := sel(env.cur.get(key), base.term)
 		if e.v.sliceNormKeys[key] {
 			e.q.markOff0(t)
+		}
+		if env.side != nil && env.cur.probe == nil && !strings.Contains(base.term, "?") {
+			if fi := e.v.fieldInvs[key]; fi != nil {
+				it, _ := e.fieldInvTerm(env.cur, key, Value{term: t, typ: ft})
+				*env.side = append(*env.side, implies("(not (= "+base.term+" 0))", it))
+			}
 		}
 		return Value{term: t, typ: ft}
 	}
@@ -743,6 +779,10 @@ func (env *SpecEnv) evalCall(x *Expr) Value {
 		// box(v): the interface value holding v
 		argc(1)
 		a := env.eval(x.Args[0])
+		if e.u.sortOf(a.typ) == sortIface {
+			// already an interface value: boxing is the identity
+			return Value{term: a.term, typ: types.Universe.Lookup("any").Type()}
+		}
 		return Value{term: e.u.mkIface(env.concreteType(a.typ), a.term), typ: types.Universe.Lookup("any").Type()}
 	case "sendcount":
 		argc(1)
